@@ -279,6 +279,149 @@ fn cell(point: (&'static str, bool, u32), intruder: &str, view: &str, stats: &mu
     res
 }
 
+
+// ---------------------------------------------------------------------------------------------
+// C14: point reads vs. scans while a write is parked (deterministic form of known finding F8)
+
+const POINT_READS: &[&str] = &["get", "contains_key", "size_of", "first_key_value", "is_empty"];
+const SCAN_READS: &[&str] = &["iter", "range", "prefix", "len", "iter-rev"];
+
+/// Reads key `k1` of keyspace `a` through a point-read method; returns Some(true) = sees the new value,
+/// Some(false) = sees the old state.
+fn point_sees_new(kind: &str, a: &Keyspace, fresh_key: bool) -> Result<bool, fjall::Error> {
+    // fresh_key: the parked write inserts a key that did not exist (old state = absent)
+    Ok(match kind {
+        "get" => a.get("k1")?.is_some_and(|v| &*v == b"new"),
+        "contains_key" => {
+            if fresh_key {
+                a.contains_key("k1")?
+            } else {
+                a.get("k1")?.is_some_and(|v| &*v == b"new")
+            }
+        }
+        "size_of" => a.size_of("k1")? == Some(3) && a.get("k1")?.is_some_and(|v| &*v == b"new"),
+        "first_key_value" => match a.first_key_value() {
+            Some(g) => {
+                let (k, v) = g.into_inner()?;
+                &*k == b"k1" && &*v == b"new"
+            }
+            None => false,
+        },
+        _ => !a.is_empty()? && a.get("k1")?.is_some_and(|v| &*v == b"new"),
+    })
+}
+
+fn scan_sees_new(kind: &str, a: &Keyspace) -> Result<bool, fjall::Error> {
+    let it: Box<dyn Iterator<Item = fjall::Guard>> = match kind {
+        "iter" => Box::new(a.iter()),
+        "iter-rev" => Box::new(a.iter().rev()),
+        "range" => Box::new(a.range("k".."l")),
+        "prefix" => Box::new(a.prefix("k1")),
+        _ => {
+            // len(): the fresh-key variant makes the count discriminate; otherwise fall back to iter
+            Box::new(a.iter())
+        }
+    };
+    let mut new = false;
+    for g in it {
+        let (k, v) = g.into_inner()?;
+        if &*k == b"k1" && &*v == b"new" {
+            new = true;
+        }
+    }
+    Ok(new)
+}
+
+fn mixed_cell(point: (&'static str, bool, u32), pread: &str, sread: &str, fresh_key: bool, stats: &mut Counts) -> Result<Option<Deviation>, Deviation> {
+    let dir = fresh_dir("dir");
+    let e = |w: &str, x: fjall::Error| Deviation::new("unexpected-error:director", format!("{w}: {x:?}"));
+    let res = (|| -> Result<Option<Deviation>, Deviation> {
+        let db = Database::builder(&dir).worker_threads_unchecked(0).open().map_err(|x| e("open", x))?;
+        let a = db.keyspace("a", || KeyspaceCreateOptions::default().max_memtable_size(64 << 20)).map_err(|x| e("ks", x))?;
+        let b = db.keyspace("b", || KeyspaceCreateOptions::default().max_memtable_size(64 << 20)).map_err(|x| e("ks", x))?;
+        if !fresh_key {
+            a.insert("k1", "old").map_err(|x| e("init", x))?;
+        }
+        a.insert("k2", "old").map_err(|x| e("init", x))?;
+        b.insert("k3", "old").map_err(|x| e("init", x))?;
+        hooks::arm(point.0, "writer", point.2);
+        let (a2, b2, db2) = (a.clone(), b.clone(), db.clone());
+        let is_batch = point.1;
+        let writer = std::thread::Builder::new()
+            .name("writer".into())
+            .spawn(move || -> Result<(), String> {
+                if is_batch {
+                    let mut batch = db2.batch();
+                    batch.insert(&a2, "k1", "new");
+                    batch.insert(&a2, "k2", "new");
+                    batch.insert(&b2, "k3", "new");
+                    batch.commit().map_err(|e| format!("{e:?}"))
+                } else {
+                    a2.insert("k1", "new").map_err(|e| format!("{e:?}"))
+                }
+            })
+            .expect("spawn");
+        let Some(seqno) = hooks::wait_parked(point.0, 5_000) else {
+            hooks::release(point.0);
+            let _ = writer.join();
+            return Err(Deviation::new("inconclusive:gate", format!("writer did not reach {}", point.0)));
+        };
+        // one client thread: point read, then scan, then point read again — all while the write is parked
+        let p1 = point_sees_new(pread, &a, fresh_key).map_err(|x| e("point read", x))?;
+        let s1 = scan_sees_new(sread, &a).map_err(|x| e("scan", x))?;
+        let len1 = if sread == "len" { Some(a.len().map_err(|x| e("len", x))?) } else { None };
+        let p2 = point_sees_new(pread, &a, fresh_key).map_err(|x| e("point read", x))?;
+        hooks::release(point.0);
+        let wres = writer.join().map_err(|_| Deviation::new("panic", "writer panicked"))?;
+        if let Err(x) = wres {
+            return Err(Deviation::new("unexpected-error:director", format!("writer: {x}")));
+        }
+        let p3 = point_sees_new(pread, &a, fresh_key).map_err(|x| e("point read", x))?;
+        let s3 = scan_sees_new(sread, &a).map_err(|x| e("scan", x))?;
+        hooks::clear_gates();
+        stats.inc("director.cells");
+        let cellname = format!("point={}#{} point_read={pread} scan={sread} fresh_key={fresh_key}", point.0, point.2);
+        if !(p3 && s3) {
+            return Ok(Some(Deviation::new(
+                "director:write-not-visible-after-return",
+                format!("{cellname}: after the write returned the point read sees new={p3}, the scan sees new={s3}"),
+            )));
+        }
+        if p1 && !p2 {
+            return Ok(Some(Deviation::new(
+                "director:point-reads-go-backwards",
+                format!("{cellname}: two point reads while the write (seqno {seqno}) is parked: first sees the new value, second the old"),
+            )));
+        }
+        if s1 && !p2 {
+            return Ok(Some(Deviation::new(
+                "director:scan-ahead-of-point-read",
+                format!("{cellname}: the scan sees the parked write (seqno {seqno}) but the point read after it does not"),
+            )));
+        }
+        if let Some(l) = len1 {
+            let expect_old = if fresh_key { 1 } else { 2 };
+            if l != expect_old && l != 2 {
+                return Ok(Some(Deviation::new("director:len-wrong", format!("{cellname}: len() = {l}"))));
+            }
+        }
+        if p1 && !s1 {
+            stats.inc("director.cells_point_read_ahead_of_scan");
+            return Ok(Some(Deviation::new(
+                "known:point-reads-see-unpublished-writes",
+                format!(
+                    "{cellname}: one client thread reads k1 with {pread} (sees the value of the write with seqno {seqno}, which is applied to the memtable but not yet published) and then scans with {sread}, which still shows the previous state: reads go backwards in time"
+                ),
+            )));
+        }
+        stats.inc("director.cells_held");
+        Ok(None)
+    })();
+    hooks::clear_gates();
+    rm_rf(&dir);
+    res
+}
+
 pub fn main(args: &Args) -> i32 {
     let seed = args.u64("seed", 1);
     let property = args.str("property", "C06");
@@ -290,9 +433,15 @@ pub fn main(args: &Args) -> i32 {
     let mut violations = 0;
     let mut idx = 0u64;
     let mut known_reported = 0;
+    let mixed = property == "C14";
+    let (second, third): (Vec<&str>, Vec<String>) = if mixed {
+        (POINT_READS.to_vec(), SCAN_READS.iter().flat_map(|s| [format!("{s}+existing"), format!("{s}+fresh")]).collect())
+    } else {
+        (INTRUDERS.to_vec(), VIEWS.iter().map(|s| (*s).to_string()).collect())
+    };
     for p in POINTS {
-        for i in INTRUDERS {
-            for v in VIEWS {
+        for i in &second {
+            for v in &third {
                 idx += 1;
                 let name = format!("{}#{}|{i}|{v}", p.0, p.2);
                 if !only.is_empty() && only != name {
@@ -301,14 +450,21 @@ pub fn main(args: &Args) -> i32 {
                 // a batch holds the keyspace dictionary's read lock while it applies its items: keyspace
                 // creation / deletion (which need the write lock) cannot interleave there in any schedule
                 let holds_dict_lock = p.1 && p.0 != "batch.drawn";
-                if holds_dict_lock && (*i == "create_keyspace" || *i == "delete_keyspace") {
+                if !mixed && holds_dict_lock && (*i == "create_keyspace" || *i == "delete_keyspace") {
                     total.inc("director.cells_impossible_by_locking");
                     continue;
                 }
                 let _ = mix(&[seed, idx]);
                 crate::watchdog::begin_case(idx);
                 let mut stats = Counts::default();
-                let res = catch_unwind(AssertUnwindSafe(|| cell(*p, i, v, &mut stats)));
+                let res = catch_unwind(AssertUnwindSafe(|| {
+                    if mixed {
+                        let (sread, variant) = v.split_once('+').unwrap_or((v.as_str(), "existing"));
+                        mixed_cell(*p, i, sread, variant == "fresh", &mut stats)
+                    } else {
+                        cell(*p, i, v, &mut stats)
+                    }
+                }));
                 crate::watchdog::end_case();
                 total.merge(&stats);
                 let res = match res {
@@ -370,10 +526,17 @@ pub fn main(args: &Args) -> i32 {
     }
     emit(&J::obj(vec![
         ("t", J::s("sample")),
-        ("case", J::s("matrix of (pause point of the write path) x (intruder that changes a tree version without the journal lock) x (view kind)")),
+        (
+            "case",
+            J::s(if mixed {
+                "matrix of (pause point of the write path) x (point-read method) x (scan method, key existing or fresh): one client reads by point read, scans, reads again while the write is parked"
+            } else {
+                "matrix of (pause point of the write path) x (intruder that changes a tree version without the journal lock) x (view kind)"
+            }),
+        ),
         ("points", J::arr_s(POINTS.iter().map(|p| format!("{}#{}", p.0, p.2)))),
-        ("intruders", J::arr_s(INTRUDERS.iter().map(|s| (*s).to_string()))),
-        ("views", J::arr_s(VIEWS.iter().map(|s| (*s).to_string()))),
+        (if mixed { "point_reads" } else { "intruders" }, J::arr_s(second.iter().map(|s| (*s).to_string()))),
+        (if mixed { "scans" } else { "views" }, J::arr_s(third.iter().cloned())),
     ]));
     emit(&J::obj(vec![
         ("t", J::s("summary")),
